@@ -2,7 +2,7 @@
 import os, subprocess
 ROOT = os.path.dirname(os.path.dirname(os.path.abspath(__file__)))
 REPO = os.environ.get("VERIF_REPO", "/repo")
-TARGET = os.path.join(ROOT, "build", "target-repo")
+TARGET = os.path.join(os.environ.get("VERIF_BUILD", os.path.join(ROOT, "build")), "target-repo")
 _built = {}
 
 def binary():
